@@ -727,6 +727,33 @@ def check_spellings(ctx, cases, exps):
     return len(groups)
 
 
+def name_scope_cases():
+    L = lambda b: {"k": "lit", "s": list(b), "ci": False, "neg": False}
+    anyc = {"k": "cls", "c": "any", "neg": False}
+    cap = lambda name, body: {"k": "cap", "name": name, "body": body}
+    loop = lambda mn, mx, body: {"k": "loop", "min": mn, "max": mx, "few": False, "name": "", "body": body}
+    ref = lambda name: {"k": "ref", "name": name}
+    sub = lambda name, es: {"k": "sub", "name": name, "es": es}
+    find = lambda body: {"kind": "find", "amt": {"k": "all"}, "body": body}
+    repl = lambda body, w: {"kind": "replace", "amt": {"k": "all"}, "body": body, "with": w}
+    N = lambda n: {"k": "name", "name": n}
+    S = lambda b: {"k": "str", "s": list(b)}
+    defs = [{"name": "p", "es": [L(b"a"), loop(0, 1, L(b"b"))], "pred": []}]
+    cmds = [
+        find([cap("x", L(b"a"))]), repl([cap("x", L(b"b"))], [N("x"), N("x")]), repl([cap("x", anyc), ref("x")], [S(b"<"), N("x")]),
+        find([sub("s", [L(b"a")]), loop(0, 1, ref("s"))]), repl([sub("s", [L(b"b")]), ref("s")], [S(b"S")]),
+        find([ref("p")]), repl([ref("p")], [S(b"P")]), repl([L(b"b"), ref("p")], [N("value"), S(b"!")]), find([loop(1, -1, ref("p"))]),
+        repl([cap("y", L(b"a"))], [N("x"), S(b"-"), N("y")]),          # x was never bound in THIS command
+    ]
+    cases = []
+    for i, a in enumerate(cmds):
+        for j, b in enumerate(cmds):
+            cases.append({"id": len(cases) + 1, "defs": defs, "cmds": [a, b], "sigma": [97, 98], "lo": 1, "hi": 3})
+    for (i, j, k) in ((0, 1, 5), (5, 6, 8), (3, 4, 3), (1, 9, 0), (6, 5, 6), (2, 0, 1)):
+        cases.append({"id": len(cases) + 1, "defs": defs, "cmds": [cmds[i], cmds[j], cmds[k]], "sigma": [97, 98], "lo": 1, "hi": 3})
+    return cases
+
+
 def redefinition_cases():
     L = lambda b: {"k": "lit", "s": list(b), "ci": False, "neg": False}
     loop = lambda mn, mx, body: {"k": "loop", "min": mn, "max": mx, "few": False, "name": "", "body": body}
@@ -796,6 +823,9 @@ def c13(ctx):
     # `set x to matches <command>` between commands: compiled, inert, and without effect on its neighbours
     sm = setmatches_cases()
     ctx.replay("C13-set-matches", sm, FIELDS["C13"], reject_violation=True)
+    # names are per command: a capture, a subroutine or a reference to a global used by one command means nothing
+    # to the next one, whether that is a find or a replace
+    ctx.replay("C13-name-scopes", name_scope_cases(), FIELDS["C13"] + ["repl"], reject_violation=True)
     # definitions between the commands: a name redefined after a use (each command sees the definition before it)
     ctx.replay("C13-redefinition", redefinition_cases(), FIELDS["C13"], reject_violation=True)
     # the relocation of stored global code, on the specification: every command of every program
@@ -1498,6 +1528,11 @@ def c17_cases():
         for combo in itertools.product(toks, repeat=n):
             texts.append(list(b"".join(combo)))
     # characters beyond the basic plane (surrogate pairs in JSON escapes), the last BMP character, line separators
+    # text that LOOKS like a JSON escape (a backslash followed by u003c), and the characters encoders like to escape
+    for e in ("\\u003c", "\\u0026x\\u003e", "<&>", "\\n", "\\\"", "%s%d", "\\u00e9"):
+        eb = e.encode()
+        texts.append(list(eb))
+        texts.append(list(b"a" + eb + b"a"))
     for e in ("\U0001F600", "\U00010000", "\U0010FFFF", "\uffff", "\u2028", "\ud7ff", "\ue000"):
         eb = e.encode()
         texts.append(list(eb))
